@@ -671,8 +671,13 @@ func (r *Run) DepOracle() []string {
 				if e.Out != "ONothingNew" && e.Out != "OFailed" {
 					bad = append(bad, fmt.Sprintf("event %d: task %d ended %s although a referenced integration has no position", i, e.Tid, e.Out))
 				}
-				if wrote[e.Tid] {
-					bad = append(bad, fmt.Sprintf("event %d: task %d wrote although a referenced integration has no position", i, e.Tid))
+				// whatever the step wrote before (an unwind of an earlier iteration) must not be committed
+				t := byID[e.Tid]
+				if d := atRead[e.Tid]; wrote[e.Tid] && d != nil {
+					p := w.pair(t)
+					if fmt.Sprint(pairCurs(d, p), len(pairRows(d, p))) != fmt.Sprint(pairCurs(cur, p), len(pairRows(cur, p))) {
+						bad = append(bad, fmt.Sprintf("event %d: task %d committed changes although a referenced integration has no position", i, e.Tid))
+					}
 				}
 			}
 		}
@@ -844,4 +849,67 @@ func (r *Run) FinalState() string {
 		return ""
 	}
 	return last.Coq()
+}
+
+// DepWindows lists the steps of dependent tasks in which a referenced
+// integration committed an unwind (its newest position decreased or vanished)
+// between the step's dependency read and its COPY: the reference lookups of
+// that step ran against a referenced table that no longer held the data the
+// dependency position promised.  The mechanism cannot exclude this (the read
+// and the lookups are not atomic with respect to other tasks' commits).
+func (r *Run) DepWindows() []string {
+	w := r.W
+	var out []string
+	cur := &w.Init
+	type win struct {
+		open bool
+		at   map[string]uint64 // dep name -> position at the dependency read
+		hit  string
+	}
+	wins := map[int]*win{}
+	for i, e := range w.Rec.Events {
+		switch e.Kind {
+		case "snap":
+			cur = e.Db
+			for tid, wn := range wins {
+				if !wn.open || wn.hit != "" {
+					continue
+				}
+				t := w.Task(tid)
+				src := w.Names.SrcID(t.Info.SrcName)
+				for dep, n0 := range wn.at {
+					c, ok := newestCur(cur, pairKey{src, w.Names.IGID(dep)})
+					if !ok || c.Num < n0 {
+						wn.hit = fmt.Sprintf("event %d: %q went back below %d", i, dep, n0)
+					}
+				}
+			}
+		case "start", "end":
+			delete(wins, e.Tid)
+		case "crash":
+			wins = map[int]*win{}
+		case "op":
+			t := w.Task(e.Tid)
+			if t == nil || len(t.Info.Deps) == 0 || e.Op.Fail != "" {
+				continue
+			}
+			switch e.Op.Name {
+			case "QLatestDep":
+				wn := &win{open: true, at: map[string]uint64{}}
+				src := w.Names.SrcID(t.Info.SrcName)
+				for _, dep := range t.Info.Deps {
+					if c, ok := newestCur(cur, pairKey{src, w.Names.IGID(dep)}); ok {
+						wn.at[dep] = c.Num
+					}
+				}
+				wins[e.Tid] = wn
+			case "CopyRows":
+				if wn := wins[e.Tid]; wn != nil && wn.hit != "" {
+					out = append(out, fmt.Sprintf("task %d copied at event %d after %s", e.Tid, i, wn.hit))
+				}
+				delete(wins, e.Tid)
+			}
+		}
+	}
+	return out
 }
